@@ -142,10 +142,15 @@ func CheckDamagedHeaders(img []byte, cfg Config, states map[uint64]*MState, hp H
 			if !hp.AllTears && hp.TearSample > 0 && int(rnd()%uint64(size)) >= hp.TearSample {
 				continue
 			}
-			for mode := 0; mode < 3; mode++ {
+			for mode := 0; mode < 6; mode++ {
 				damageSlot(slot, func(h []byte) {
-					for i := 0; i < j; i++ {
-						switch mode {
+					// modes 0-2: the first j bytes are replaced, modes 3-5: the last j bytes
+					from, to := 0, j
+					if mode >= 3 {
+						from, to = size-j, size
+					}
+					for i := from; i < to; i++ {
+						switch mode % 3 {
 						case 0:
 							h[i] = 0
 						case 1:
@@ -156,7 +161,7 @@ func CheckDamagedHeaders(img []byte, cfg Config, states map[uint64]*MState, hp H
 					}
 				})
 				st.Tears++
-				if v := try(fmt.Sprintf("slot %d first %d bytes replaced (mode %d: 0=zero 1=other slot 2=garbage)", slot, j, mode)); v != nil {
+				if v := try(fmt.Sprintf("slot %d %d bytes replaced (mode %d: 0-2 prefix, 3-5 suffix; 0/3=zero 1/4=other slot 2/5=garbage)", slot, j, mode)); v != nil {
 					return v
 				}
 			}
